@@ -21,6 +21,11 @@ theorem iff_delete_raises_only (d : Iff.Dialect) (B : Nat) (L : Iff.Layout) :
     Raises (fun e x => x = .mutagen ∨ (Iff.IffErr e x ∧ x.isIO = false)) (Iff.deleteEntry d B L) :=
   Raises.convertError PyErr.isIO .mutagen (Iff.raises_deleteM d B L)
 
+/-- the same for `WAVE(...).tags.delete(f)`, the method that wraps the module function (two rounds of `verify_fileobj`) -/
+theorem iff_wave_method_delete_raises_only (d : Iff.Dialect) (B : Nat) (L : Iff.Layout) :
+    Raises (fun e x => x = .mutagen ∨ (Iff.IffErr e x ∧ x.isIO = false)) (Iff.deleteWaveMethodEntry d B L) :=
+  Raises.convertError PyErr.isIO .mutagen (Iff.raises_deleteWaveMethodM d B L)
+
 theorem iff_classes_of_io_faults (e : Env) (hio : ∀ i x, e.failAt i = some x → x.isIO = true) (x : PyErr)
     (h : x = .mutagen ∨ (Iff.IffErr e x ∧ x.isIO = false)) : x = .mutagen ∨ x = .value ∨ x = .diverge := by
   rcases h with h1 | ⟨h2, hn⟩
@@ -45,6 +50,11 @@ theorem iff_delete_io_faults (d : Iff.Dialect) (B : Nat) (L : Iff.Layout)
     (e : Env) (hio : ∀ i x, e.failAt i = some x → x.isIO = true) (s s' : FS) (x : PyErr)
     (h : Iff.deleteEntry d B L e s = (.error x, s')) : x = .mutagen ∨ x = .value ∨ x = .diverge :=
   iff_classes_of_io_faults e hio x (iff_delete_raises_only d B L e s x s' h)
+
+theorem iff_wave_method_delete_io_faults (d : Iff.Dialect) (B : Nat) (L : Iff.Layout)
+    (e : Env) (hio : ∀ i x, e.failAt i = some x → x.isIO = true) (s s' : FS) (x : PyErr)
+    (h : Iff.deleteWaveMethodEntry d B L e s = (.error x, s')) : x = .mutagen ∨ x = .value ∨ x = .diverge :=
+  iff_classes_of_io_faults e hio x (iff_wave_method_delete_raises_only d B L e s x s' h)
 
 /-- a normal return means no injected fault fired (nothing is swallowed on the way) -/
 theorem iff_ok_means_no_fault (d : Iff.Dialect) (B : Nat) (L : Iff.Layout) (vmaj : Nat) (frames : Bytes) (pad : Iff.PadZ) :
